@@ -1482,6 +1482,20 @@ func (r *runner) resync() {
 	r.ctx.Probe("model-resynced")
 }
 
+// threadCounters: the traffic counters summed over the forwarding threads.
+func (r *runner) threadCounters() [6]uint64 {
+	var c [6]uint64
+	for _, th := range r.ths {
+		c[0] += th.NInInterests
+		c[1] += th.NInData
+		c[2] += th.NOutInterests
+		c[3] += th.NOutData
+		c[4] += th.NSatisfiedInterests
+		c[5] += th.NUnsatisfiedInterests
+	}
+	return c
+}
+
 // faceCounters: the traffic counters of every face in the face table.
 func faceCounters() map[uint64][6]uint64 {
 	out := map[uint64][6]uint64{}
@@ -1512,6 +1526,7 @@ func (r *runner) doDataset(o *Op) {
 		name = append(name, enc.NewBytesComponent(enc.TypeGenericNameComponent, fb))
 	}
 	counters0 := faceCounters()
+	threads0 := r.threadCounters()
 	resp := r.inject(fi, name, true, false)
 	if req.scope != defn.Local {
 		if resp.got {
@@ -1671,6 +1686,14 @@ func (r *runner) doDataset(o *Op) {
 		}
 		if int(ds.NFibEntries) != len(fib) {
 			r.fail("C17/dataset-differs-from-table", key, "status/general reports %d FIB entries, table has %d", ds.NFibEntries, len(fib))
+		}
+		now := r.threadCounters()
+		vals := [6]uint64{ds.NInInterests, ds.NInData, ds.NOutInterests, ds.NOutData, ds.NSatisfiedInterests, ds.NUnsatisfiedInterests}
+		names := [6]string{"NInInterests", "NInData", "NOutInterests", "NOutData", "NSatisfiedInterests", "NUnsatisfiedInterests"}
+		for i := range vals {
+			if vals[i] < threads0[i] || vals[i] > now[i] {
+				r.fail("C17/dataset-differs-from-table", key+"/counters", "status/general reports %s=%d; the forwarding threads counted %d before the request and %d after the answer", names[i], vals[i], threads0[i], now[i])
+			}
 		}
 	}
 }
